@@ -145,7 +145,7 @@ func typedPaths(dir string, seed int64, tier string, repM *Report, repU *Report)
 		depth := 1 + r.Intn(6)
 		t := randPathType(r, depth)
 		v := randGoValue(r, t, depth)
-		if hasBadMapKey(v) || hasTiedKeys(v) || usesEmbeddedOrRecursive(t) {
+		if hasBadMapKey(v) || hasTiedKeys(v) || hasCompositeIfaceKey(v) || usesEmbeddedOrRecursive(t) {
 			continue
 		}
 		tyS, valS := coqTy(t), coqGval(v)
@@ -187,7 +187,7 @@ func typedPaths(dir string, seed int64, tier string, repM *Report, repU *Report)
 
 		// ---- unmarshal taps: every scalar token is offered with the path of the element it fills ----
 		ts, e := marshalTokens(v.Interface(), nil)
-		if e != nil || hasPtrToNilPtr(v) {
+		if e != nil || hasPtrToNilPtr(v) || hasCompositeIfaceKey(v) {
 			continue
 		}
 		type utap struct {
@@ -380,7 +380,100 @@ func typedPathsTargeted(repU *Report) {
 		got, err = run(&m, []sb.Token{tokK(sb.KindMap), tokS("a"), tokI(1), tokS("b"), tokI(2), tokK(sb.KindMapEnd)})
 		check("map[string]int", leafPaths(got, sb.KindInt), []string{"/a", "/b"}, err)
 	}
+	// a literal token (what the JSON source emits for every number) that cannot be converted: the error
+	// carries the path of the element, exactly as a kind mismatch does
+	{
+		type In struct {
+			Small []int8
+			U     uint
+		}
+		type Doc struct {
+			Inner In
+			List  []In
+			P     *In
+		}
+		lit := func(s string) sb.Token { return sb.Token{Kind: sb.KindLiteral, Value: s} }
+		obj := func(fields ...sb.Token) []sb.Token {
+			return append(append([]sb.Token{tokK(sb.KindObject)}, fields...), tokK(sb.KindObjectEnd))
+		}
+		cat := func(parts ...[]sb.Token) []sb.Token {
+			var out []sb.Token
+			for _, p := range parts {
+				out = append(out, p...)
+			}
+			return out
+		}
+		arr := func(items ...sb.Token) []sb.Token {
+			return append(append([]sb.Token{tokK(sb.KindArray)}, items...), tokK(sb.KindArrayEnd))
+		}
+		cases := []struct {
+			ts   []sb.Token
+			want string
+		}{
+			{obj(cat([]sb.Token{tokS("Inner")}, obj(cat([]sb.Token{tokS("Small")}, arr(lit("1"), lit("2"), lit("300")))...))...), "/Inner/Small/2"},
+			{obj(cat([]sb.Token{tokS("Inner")}, obj(tokS("U"), lit("-1")))...), "/Inner/U"},
+			{obj(cat([]sb.Token{tokS("List")}, arr(cat(obj(tokS("U"), lit("1")), obj(cat([]sb.Token{tokS("Small")}, arr(lit("1"), lit("1.5")))...))...))...), "/List/1/Small/1"},
+			{obj(cat([]sb.Token{tokS("P")}, obj(tokS("U"), lit("1e3")))...), "/P/U"},
+			{obj(tokS("Inner"), lit("5")), "/Inner"},
+			{obj(cat([]sb.Token{tokS("Inner")}, obj(cat([]sb.Token{tokS("Small")}, arr(lit("1"), tokS("x")))...))...), "/Inner/Small/1"},
+		}
+		for _, c := range cases {
+			var d Doc
+			_, e := run(&d, c.ts)
+			var ep sb.Path
+			repU.Evaluations++
+			repU.count("c17:literal-error-path")
+			has := e != nil && errors.As(e, &ep)
+			if e == nil || !has || ep.String() != c.want {
+				repU.violate("C17", "error-path", fmt.Sprintf("literal that cannot be converted at %s: error path %q (path present: %v), error %v", c.want, ep.String(), has, e), "literal error path: "+descTokens(c.ts))
+			}
+		}
+	}
+	// error paths are snapshots: errors kept from several runs that share a base context (whose path has
+	// spare capacity) still name their own element afterwards
+	{
+		base := sb.DefaultCtx.WithPath("doc").WithPath("body").WithPath("items")
+		var errs []error
+		docs := [][]sb.Token{
+			{tokK(sb.KindArray), tokS("bad"), tokI(2), tokI(3), tokK(sb.KindArrayEnd)},
+			{tokK(sb.KindArray), tokI(1), tokS("bad"), tokI(3), tokK(sb.KindArrayEnd)},
+			{tokK(sb.KindArray), tokI(1), tokI(2), tokS("bad"), tokK(sb.KindArrayEnd)},
+		}
+		for _, doc := range docs {
+			var target []int
+			errs = append(errs, guard(func() error {
+				return copyBudget(tokensFrom(doc), sb.UnmarshalValue(base, reflect.ValueOf(&target), nil))
+			}))
+		}
+		for i, e := range errs {
+			var ep sb.Path
+			repU.Evaluations++
+			want := fmt.Sprintf("/doc/body/items/%d", i)
+			if e == nil || !errors.As(e, &ep) || ep.String() != want {
+				repU.violate("C17", "error-path", fmt.Sprintf("errors kept from 3 runs sharing a base context: error %d carries path %q, want %s", i, ep.String(), want), "shared base context, unmarshal")
+			}
+		}
+		// marshal side: a failing marshaller at index i
+		errs = errs[:0]
+		for i := 0; i < 3; i++ {
+			doc := []any{1, 2, 3}
+			doc[i] = failingText{}
+			errs = append(errs, guard(func() error { return sb.Copy(sb.MarshalCtx(base, doc), sb.Discard) }))
+		}
+		for i, e := range errs {
+			var ep sb.Path
+			repU.Evaluations++
+			want := fmt.Sprintf("/doc/body/items/%d", i)
+			if e == nil || !errors.As(e, &ep) || ep.String() != want {
+				repU.violate("C17", "error-path", fmt.Sprintf("marshal errors kept from 3 runs sharing a base context: error %d carries path %q, want %s", i, ep.String(), want), "shared base context, marshal")
+			}
+		}
+	}
 }
+
+type failingText struct{}
+
+func (failingText) MarshalText() ([]byte, error) { return nil, fmt.Errorf("verif: cannot marshal") }
 
 // types for path cases: deeper and wider than the general grammar, few maps with exotic keys
 func randPathType(r *rand.Rand, depth int) reflect.Type {
@@ -448,7 +541,7 @@ func typedEvolution(dir string, seed int64, tier string, repM, repU *Report, wM,
 			continue
 		}
 		v := randGoValue(r, wt, 2)
-		if hasBadMapKey(v) || hasTiedKeys(v) || hasPtrToNilPtr(v) {
+		if hasBadMapKey(v) || hasTiedKeys(v) || hasPtrToNilPtr(v) || hasCompositeIfaceKey(v) {
 			continue
 		}
 		skipEmpty := i%3 == 1
